@@ -16,6 +16,7 @@ import (
 	_ "verif/checks/c10"
 	_ "verif/checks/c11"
 	_ "verif/checks/c12"
+	_ "verif/checks/c13"
 	_ "verif/checks/c15"
 	_ "verif/checks/c16"
 	_ "verif/checks/c19"
